@@ -338,6 +338,70 @@ func negClientCase(l negLine, variant int, res *hx.Result) {
 	srv.Close()
 }
 
+// negBothCase: both real ends (CSession <-> ServeConn(SSession(S))) at a small msize m, forced by rewriting the
+// msize field of the client's Tversion on the wire; then maximal traffic both ways with both directions tapped.
+func negBothCase(m int, res *hx.Result) {
+	rep := map[string]interface{}{"engine": "neg", "side": "both", "forced_msize": m}
+	sig := fmt.Sprintf("both:m=%d", m)
+	cli, srv := gconn.Pair(0)
+	c2s, s2c := &frameTap{}, &frameTap{}
+	cli.Tap, srv.Tap = c2s.feed, s2c.feed
+	cli.BeforeWrite = func(n int, p []byte) error {
+		if n == 1 && len(p) >= 11 && p[4] == byte(p9p.Tversion) {
+			binary.LittleEndian.PutUint32(p[7:], uint32(m))
+		}
+		return nil
+	}
+	s := &recS{}
+	ctx, cancel := context.WithTimeout(context.Background(), 10*time.Second)
+	defer cancel()
+	done := make(chan struct{})
+	go func() { p9p.ServeConn(ctx, srv, p9p.SSession(s)); close(done) }()
+	sess, err := p9p.CSession(ctx, cli)
+	if err != nil {
+		res.Violate("C10", "both-ends-session-failed:"+sig, err.Error(), rep)
+		return
+	}
+	if ms, _ := sess.Version(); ms != m {
+		res.Violate("C10", "both-ends-disagree:"+sig, fmt.Sprintf("server was offered %d and answered it; client adopted %d", m, ms), rep)
+		return
+	}
+	// write 1 MiB: must arrive at S as exactly m-23 bytes, reported back as a short write
+	s.n = m - 23
+	n, werr := sess.Write(ctx, 1, make([]byte, 1<<20), 5)
+	if n != m-23 || werr == nil || len(s.calls) != 1 || s.calls[0].Len != m-23 {
+		seen := -1
+		if len(s.calls) > 0 {
+			seen = s.calls[0].Len
+		}
+		res.Violate("C10", "both-ends-write:"+sig, fmt.Sprintf("1 MiB write at msize %d: caller got n=%d err=%v, the served session saw %d bytes; expected %d", m, n, werr, seen, m-23), rep)
+	}
+	// read 1 MiB: S is asked for m-11 bytes, the reply of exactly msize is accepted
+	s.mu.Lock()
+	s.calls = nil
+	s.mu.Unlock()
+	s.n = 1 << 20
+	rn, rerr := sess.Read(ctx, 1, make([]byte, 1<<20), 0)
+	if rn != m-11 || rerr != nil || len(s.calls) != 1 || s.calls[0].Len != m-11 {
+		seen := -1
+		if len(s.calls) > 0 {
+			seen = s.calls[0].Len
+		}
+		res.Violate("C10", "both-ends-read:"+sig, fmt.Sprintf("1 MiB read at msize %d: caller got n=%d err=%v, the served session was asked for %d bytes; expected %d", m, rn, rerr, seen, m-11), rep)
+	}
+	for dir, t := range map[string]*frameTap{"client": c2s, "server": s2c} {
+		t.mu.Lock()
+		for i, sz := range t.sizes {
+			if sz > m && !(dir == "client" && i == 0) && !(dir == "server" && i == 0 && sz <= 19) {
+				res.Violate("C10", "both-ends-frame-exceeds-msize:"+sig, fmt.Sprintf("the %s emitted a frame of %d bytes after msize %d was agreed", dir, sz, m), rep)
+			}
+		}
+		t.mu.Unlock()
+	}
+	cli.Close()
+	<-done
+}
+
 func Neg(args []string) {
 	fl := flag.NewFlagSet("neg", flag.ExitOnError)
 	vec := fl.String("vectors", "", "ndjson from NegVectors.tla")
@@ -387,5 +451,10 @@ func Neg(args []string) {
 		}
 	}
 	wg.Wait()
+	for _, m := range []int{24, 25, 31, 64, 100, 4096, 65535} {
+		negBothCase(m, res)
+		res.Evaluations++
+		distinct++
+	}
 	res.Distinct = distinct
 }
